@@ -14,6 +14,7 @@ import (
 type nodeField struct {
 	name  string
 	slice bool
+	iface bool
 }
 
 // nodeFields: fields of struct type st whose values are AST nodes (or slices of them)
@@ -38,9 +39,9 @@ func (e *Engine) nodeFields(st *types.Struct, nodeI *types.Interface) []nodeFiel
 		}
 		t := f.Type()
 		if isNode(t) {
-			out = append(out, nodeField{f.Name(), false})
+			out = append(out, nodeField{f.Name(), false, isInterface(t)})
 		} else if sl, ok := under(t).(*types.Slice); ok && isNode(sl.Elem()) {
-			out = append(out, nodeField{f.Name(), true})
+			out = append(out, nodeField{f.Name(), true, isInterface(sl.Elem())})
 		}
 	}
 	return out
@@ -114,7 +115,7 @@ func cmdGenAccept(args []string) int {
 		if !at.ptrRecv {
 			star = ""
 		}
-		fmt.Printf("//@ func (%s%s).Accept\n//@   props C20\n//@   nilrecv\n//@   nosafety\n//@   modifies visited, symSeen, visitorState\n", star, name)
+		fmt.Printf("//@ func (%s%s).Accept\n//@   props C20\n//@   nilrecv\n//@   nosafety\n//@   modifies visited, symSeen, visitorState, any boltz.publicSymbolValidator.err, any SymbolValidator.*\n", star, name)
 		if at.ptrRecv {
 			fmt.Printf("//@   censures visited[%s]\n", recv)
 		}
@@ -156,6 +157,7 @@ func cmdGenTypeInv(args []string) int {
 				continue
 			}
 			parts = append(parts, "self."+f.name+" != nil")
+
 		}
 		if len(parts) > 0 {
 			fmt.Printf("//@ typeinv %s: %s\n", name, strings.Join(parts, " && "))
@@ -210,7 +212,15 @@ func cmdGenGetType(args []string) int {
 			if _, ok := r.Type().(*types.Pointer); ok {
 				star = "*"
 			}
-			fmt.Printf("//@ func (%s%s).GetType\n//@   props C10\n//@   nilrecv\n//@   pure\n", star, nt.Obj().Name())
+			nilrecv := "//@   nilrecv\n"
+			if len(fn.Params) > 0 && fn.Params[0].Referrers() != nil && len(*fn.Params[0].Referrers()) > 0 {
+				for _, r := range *fn.Params[0].Referrers() {
+					if _, dbg := r.(*ssa.DebugRef); !dbg {
+						nilrecv = ""
+					}
+				}
+			}
+			fmt.Printf("//@ func (%s%s).GetType\n//@   props C10\n%s//@   pure\n", star, nt.Obj().Name(), nilrecv)
 			if len(fn.Blocks) == 1 {
 				if ret, ok := fn.Blocks[0].Instrs[len(fn.Blocks[0].Instrs)-1].(*ssa.Return); ok && len(ret.Results) == 1 {
 					if c, ok := ret.Results[0].(*ssa.Const); ok && c.Value != nil {
